@@ -184,6 +184,9 @@ func (comp) Gen(p string, rng *rand.Rand, tier string) *core.History {
 	if kind == 1 && core.Chance(rng, 1, 2) {
 		values[nv-1] = bigValue() // two of these exceed the byte capacity of the size-bounded LRU
 	}
+	if core.Chance(rng, 1, 4) {
+		values[0] = []byte{} // a zero-length value is a legitimate value (C08: "empty values included")
+	}
 	setConfig(h, kind, capacity, shards, pkind, maxBatch, keys)
 
 	failEvery := core.Pick(rng, []int{4, 6, 6, 8, 12, 1000})
